@@ -3,7 +3,7 @@ import itertools, os, re
 import vlib
 from vlib import Check, Stream, hexs
 from checks.murmur import murmur3_32
-from checks.c05 import py_atoll, unhex, kop, INT64_MIN, INT64_MAX
+from checks.c05 import py_atoll, unhex, kop, INT64_MIN, INT64_MAX, FULL_COLLISIONS, VS_LENGTHS, vs_value
 
 WS = b" \t\r\n"
 ENTRY = re.compile(r"^([0-9a-f]+|-)\(([0-9a-f]{8})\)=([0-9a-f]+|-)$")
@@ -377,6 +377,36 @@ class TheCheck(Check):
                 ops += ["sort", kop("put", rng.choice(names), hexs(b"x")), "sort", "walk 1"]
         sts.append(Stream("sort", ops, history=True))
 
+        # 4b. distinct names with the SAME 32-bit hash: namematch compares hash then name, sort must order them
+        ops = []
+        for o in ALL_OPTS:
+            for a, b in FULL_COLLISIONS:
+                lo, hi = sorted((a, b))
+                for first, second in ((hi, lo), (lo, hi)):
+                    ops += ["new " + o, kop("put", first, "31"), kop("put", second, "32"), "sort", "walk 0",
+                            kop("get", lo, "0"), kop("get", hi, "1"), kop("getmulti", lo, "0"), kop("getmulti", hi, "1"),
+                            kop("put", hi, "33"), kop("put", lo, "34"), "sort", "sort", "walk 1",
+                            kop("getmulti", lo, "1"), kop("getmulti", hi, "0"), kop("walkn", hi, "0"),
+                            kop("rm", lo), kop("get", hi, "0"), kop("get", lo, "0"), "size", kop("rm", hi), "size"]
+                # descending run of colliding and ordinary names, adjacent in every arrangement
+                names = [hi, lo, b"z", hi, b"a", lo]
+                ops += ["new " + o] + [kop("put", n, hexs(b"%d" % i)) for i, n in enumerate(names)] + ["sort", "walk 0"]
+                ops += ["new " + o] + [kop("put", n, hexs(b"%d" % i)) for i, n in enumerate(sorted(names, reverse=True))] + ["sort", "walk 0", "sort"]
+        sts.append(Stream("full-hash-collisions", ops, history=True,
+                          note="pairs of distinct names with identical murmur3_32 in descending order, sorted; lookups / removal by each name"))
+
+        # 4c. putstrf: formatted lengths around every buffer size of DYNAMIC_VSPRINTF
+        ops = []
+        for o in ("0 0 0 0", "1 0 0 0", "1 1 1 1"):
+            ops.append("new " + o)
+            for i, n in enumerate(VS_LENGTHS):
+                k = b"p%d" % (i % 3)
+                ops += [kop("putstrf", k, hexs(vs_value(n, i))), kop("getstr", k), kop("getmulti", k, "1")]
+                if i % 3 == 2:
+                    ops += ["clear"]
+            ops += ["walk 0", "clear"]
+        sts.append(Stream("putstrf-lengths", ops, history=True, note="formatted lengths 1000..1025, 2040..2050, 4090..4100, 5000, 10000"))
+
         # 5. save / load
         ops = ["new 0 0 0 0"]
         for b in range(1, 256):
@@ -422,7 +452,7 @@ class TheCheck(Check):
         # 7. random histories
         nh, nops = (64, 150) if self.tier == "quick" else (480, 800)
         ops = []
-        pool0 = K + [b"B", b"ab", b"Ab", b"", b"k1", b"K1", b"x y", b"\xe9", b"\xc9"]
+        pool0 = K + [b"B", b"ab", b"Ab", b"", b"k1", b"K1", b"x y", b"\xe9", b"\xc9"] + list(FULL_COLLISIONS[2]) + list(FULL_COLLISIONS[3])
         for hno in range(nh):
             o = ALL_OPTS[hno % 16]
             pool = pool0 + [bytes(rng.randrange(1, 256) for _ in range(rng.randrange(1, 20)))]
@@ -435,6 +465,8 @@ class TheCheck(Check):
                     ops.append(kop("put", k, hexs(v)))
                 elif x < 0.33:
                     ops.append(kop("putstr", k, hexs(bytes(rng.randrange(1, 256) for _ in range(rng.randrange(0, 9))))))
+                elif x < 0.35:
+                    ops.append(kop("putstrf", k, hexs(vs_value(rng.choice([0, 1, 7, 1023, 1024, 2047, 2048, rng.choice(VS_LENGTHS)]), rng.randrange(90)))))
                 elif x < 0.37:
                     ops.append(kop("putint", k, str(rng.randrange(-1000, 1000))))
                 elif x < 0.45:
